@@ -439,6 +439,9 @@ def run(ck):
                                       only_impls={decoders.DISPATCH, decoders.LEN_AND_FRIENDS, decoders.FAST},
                                       only_names={"hlit-hdist", "rep16-overflow", "rep17-overflow", "rep18-overflow", "dist-window"})
     ck.floor("ATOM/safety-rejection", nsafe, 7)
+    # the table builder's space limits keep sub-tables inside the fixed-size code arrays
+    from . import c03 as _c03
+    _c03.inflate_table_rules(ck, P)
     fast_refill(ck, P, "GUARD/fast-bit-budget")
     roots = decode_roots(P)
     ck.floor("ABORT:roots", len(roots), 25)
